@@ -33,5 +33,37 @@ PROPS['C01'] = Prop(
     outside='histories longer than K mutator steps / more than K callbacks alive; operations issued from inside callbacks (C02); threads (C03)',
     assumptions=['callback type is a POD functor with operator== (Policies::Callback); Threading = instrumented non-recursive mutex + plain atomics'])
 
+PROPS['C02'] = Prop(
+    quick=[Run('cl_nested_a3', 'cl_nested.cpp', {'N0': 3, 'AA': 3, 'DD': 2}, covers=6,
+               bounds='CallbackList, 3 initial callbacks, one outermost invocation; callbacks draw A=3 actions in total from append/prepend/insert-before-h/remove-h/re-invoke, '
+                      'h over all handles incl. own, removed and empty; nesting depth <= 2; invocation arguments symbolic'),
+           Run('disp_nested_a2', 'cl_nested.cpp', {'N0': 2, 'AA': 2, 'DD': 2, 'DISP': None}, covers=6, optional_covers=(5,),
+               bounds='EventDispatcher<int,...> (dispatch and directDispatch), 2 initial listeners, A=2 actions incl. appendListener/dispatch on a second event; depth <= 2')],
+    thorough=[Run('cl_nested_a4', 'cl_nested.cpp', {'N0': 3, 'AA': 4, 'DD': 3}, covers=6, budget_s=1700, bounds='CallbackList, 3 initial callbacks, A=4 actions, depth <= 3'),
+              Run('disp_nested_a3', 'cl_nested.cpp', {'N0': 3, 'AA': 3, 'DD': 2, 'DISP': None}, covers=6, budget_s=1700, bounds='EventDispatcher, 3 initial listeners, A=3 actions, depth <= 2')],
+    outside='more than A actions per outermost invocation; nesting deeper than D; counter wrap during the invocation (C19); threads (C03)',
+    assumptions=['instrumented mutex is non-recursive: a library lock held across a callback shows up as a deadlock violation'])
+
+_Q_BOUNDS = ('EventQueue<int, ...> with 2 event keys; K=%d top-level steps from enqueue(key)/process/processOne/processIf/processUntil/peekEvent/takeEvent/clearEvents/appendListener(key)/removeListener(h); '
+             'payload value symbolic 32-bit, predicate verdict = function of the symbolic payload; RA=%d re-entrant operation(s) (enqueue/processOne/takeEvent/clearEvents/process) issued from a listener or predicate; payload kind: %s')
+PROPS['C05'] = Prop(
+    quick=[Run('q_history_k3_int', 'q_history.cpp', {'KK': 3, 'RA': 1, 'PAYLOAD': 0}, covers=11, bounds=_Q_BOUNDS % (3, 1, 'two uint32_t by value')),
+           Run('q_history_k3_moveonly', 'q_history.cpp', {'KK': 3, 'RA': 0, 'PAYLOAD': 3}, covers=11, optional_covers=(4, 5, 7), bounds=_Q_BOUNDS % (3, 0, 'move-only tracked object by const reference'))],
+    thorough=[Run('q_history_k4_int', 'q_history.cpp', {'KK': 4, 'RA': 1, 'PAYLOAD': 0}, covers=11, budget_s=1700, bounds=_Q_BOUNDS % (4, 1, 'two uint32_t by value')),
+              Run('q_history_k4_byvalue', 'q_history.cpp', {'KK': 4, 'RA': 0, 'PAYLOAD': 1}, covers=11, optional_covers=(4, 5), budget_s=1700, bounds=_Q_BOUNDS % (4, 0, 'copyable tracked object by value')),
+              Run('q_history_k4_moveonly', 'q_history.cpp', {'KK': 4, 'RA': 1, 'PAYLOAD': 3}, covers=11, optional_covers=(7,), budget_s=1700, bounds=_Q_BOUNDS % (4, 1, 'move-only tracked object by const reference'))],
+    outside='histories longer than K steps; more than RA re-entrant operations per history; listener changes issued from inside listeners (those follow C02); threads (C06)',
+    assumptions=['every listener/predicate call is checked against the reference model at the moment it happens (incremental oracle)'])
+
+PROPS['C19'] = Prop(
+    quick=[Run('cl_history_wrap_k4', 'cl_history.cpp', {'KK': 4, 'WRAP': 3}, covers=9,
+               bounds='as C01 K=4, with the generation counter started at a symbolic c0 in [2^32-1-3, 2^32-1]: the solver places the wrap at any of the additions'),
+           Run('cl_nested_wrap_a3', 'cl_nested.cpp', {'N0': 2, 'AA': 3, 'DD': 2, 'WRAP': 4}, covers=8, optional_covers=(5,),
+               bounds='as C02 with 2 initial callbacks, A=3 nested actions, counter started at symbolic c0 within 4 of the wrap; invocations in progress at the wrap are relaxed as the property allows, every later invocation must be exact')],
+    thorough=[Run('cl_history_wrap_k5', 'cl_history.cpp', {'KK': 5, 'WRAP': 4}, covers=9, budget_s=1700, bounds='as C01 K=5, c0 within 4 of the wrap'),
+              Run('cl_nested_wrap_a4', 'cl_nested.cpp', {'N0': 3, 'AA': 4, 'DD': 2, 'WRAP': 5}, covers=8, budget_s=1700, bounds='as C02 with 3 initial callbacks, A=4, c0 within 5 of the wrap')],
+    outside='wrap placed further than W additions from the start of the history; copies/moves/swaps across the wrap are exercised in C10 (counters far apart)',
+    assumptions=['the counter is positioned by writing the private member currentCounter through the test-style private->public include (no repo hook)'])
+
 HOOK_COMMITS = []
 EBMC_PROPS = []
